@@ -237,6 +237,13 @@ def sleeper():
     time.sleep(60)
 
 
+def lingerer():
+    """returns at once - but the process stays: a non-daemon thread keeps the interpreter from exiting"""
+    import threading
+    threading.Thread(target=time.sleep, args=(30,)).start()
+    return 'done'
+
+
 def call_bounded(fn, bound, pid_getter):
     """run fn() in a thread; if it does not return within `bound` seconds kill the child to unblock it"""
     import threading
@@ -296,6 +303,36 @@ def real_children(res, tier):
                     os.kill(pid, signal.SIGKILL)
                 except Exception:
                     pass
+        # a child which has delivered its result but whose process is still there: wait() must go on saying "not dead",
+        # is_alive() must agree with the process table, and terminate(force=True) must still be able to end it
+        for kname, mk in kinds:
+            try:
+                w = mk(lingerer)
+            except BaseException as e:   # noqa
+                res.violation(dict(real=kname, child='Lingering'), f'could not create the worker: {type(e).__name__}')
+                continue
+            time.sleep(0.8)
+            pid = w.pid
+            there = lambda: os.path.exists(f'/proc/{pid}') and open(f'/proc/{pid}/stat').read().split()[2] != 'Z'   # noqa: E731
+            r1, d1 = call_bounded(lambda: w.wait(timeout=0.3), 6, lambda: pid)
+            a1 = there()
+            r1b, _ = call_bounded(lambda: w.wait(timeout=0.3), 6, lambda: pid)
+            alive_says, _ = call_bounded(w.is_alive, 6, lambda: pid)
+            a2 = there()
+            res.count('real:' + kname + ':Lingering'); res.case(('real', kname, 'Lingering'), nontrivial=True)
+            if kname == 'process':
+                if (r1 is True and a1) or (r1b is True and a2):
+                    res.violation(dict(real=kname, child='Lingering'), f'wait(0.3) returned True ({r1}, {r1b}) although the child process {pid} is still running')
+                elif alive_says is False and a2:
+                    res.violation(dict(real=kname, child='Lingering'), f'is_alive() says False although the child process {pid} is still running')
+            r2, d2 = call_bounded(lambda: w.terminate(timeout=0.3, force=True), 8, lambda: pid)
+            time.sleep(0.2)
+            if kname == 'process' and (r2 is not True or there()):
+                res.violation(dict(real=kname, child='Lingering'), f'terminate(0.3, force=True) returned {r2} and the lingering child process {pid} is {"still running" if there() else "gone"}')
+            try:
+                os.kill(pid, signal.SIGKILL)
+            except Exception:
+                pass
     finally:
         try:
             server.terminate(force=True)
